@@ -47,8 +47,11 @@ PLAN = {
                       e1(4000, kinds=ALL_KINDS, profiles=["full_store", "mixed"], illformed=0.04)],
             "thorough": [e2(9, 16), e1(240000, kinds=ALL_KINDS, profiles=["full_store", "mixed", "burst", "prio_storm"]), e3(20000)]},
     "C02": {"quick": [e2(7, 4), e1(14000, kinds=ALL_KINDS, profiles=["hoarder", "mixed", "burst", "cancel_storm"]),
-                      e1(4000, kinds=ALL_KINDS, profiles=["hoarder", "mixed"], illformed=0.04)],
-            "thorough": [e2(9, 16), e1(240000, kinds=ALL_KINDS, profiles=["hoarder", "mixed", "burst", "cancel_storm"]), e3(20000)]},
+                      e1(4000, kinds=ALL_KINDS, profiles=["hoarder", "mixed"], illformed=0.04),
+                      # payload objects with a user-defined __eq__ (distinct objects that compare equal): known finding KF-value-equal-items
+                      e1(1200, kinds=ALL_KINDS, profiles=["hoarder", "mixed"], payload="equal_values")],
+            "thorough": [e2(9, 16), e1(240000, kinds=ALL_KINDS, profiles=["hoarder", "mixed", "burst", "cancel_storm"]), e3(20000),
+                         e1(12000, kinds=ALL_KINDS, profiles=["hoarder", "mixed"], payload="equal_values")]},
     "C04": {"quick": [e2(7, 4), e1(16000), e3(2000)], "thorough": [e2(9, 16), e1(240000), e3(20000)]},
     "C05": {"quick": [e2(7, 4), e1(16000, profiles=["prio_storm", "full_store", "hoarder"]), {"engine": "E1p", "params": {}, "cases": 12000},
                       {"engine": "E2p", "params": {}, "cases": 8736}],
